@@ -586,12 +586,12 @@ Section TensorProofs.
   Variable V : Type.
   Variable npts : Z -> Z.
   Variable maxlevel : nat.
-  Variable flag : bool.
+  Variable flag keep : bool.
   Notation gstate := (gstate V).
   Notation eject := (eject V npts maxlevel).
   Notation add_node := (add_node V npts maxlevel).
   Notation g_api_deliver := (g_api_deliver V npts maxlevel flag).
-  Notation g_run := (g_run V npts maxlevel flag).
+  Notation g_run := (g_run V npts maxlevel flag keep).
 
   Lemma eject_perm (st : gstate) : Permutation (gpoints (eject st) ++ gdata (eject st)) (gpoints st ++ gdata st).
   Proof.
@@ -753,43 +753,53 @@ Section HierHom.
   Variable I : Type.
   Variable ieqb : I -> I -> bool.
   Variable B1 : I -> I -> R1.
+  Variable B2 : I -> I -> R2.
+  Hypothesis h_B : forall i j, h (B1 i j) = B2 i j.
   Variable reach : I -> list I.
   Variable v1 : I -> R1.
+  Variable v2 : I -> R2.
+  Hypothesis h_v : forall i, h (v1 i) = v2 i.
 
   Definition hmap (l : list (I * R1)) : list (I * R2) := map (fun p => (fst p, h (snd p))) l.
 
   Lemma lookup_hom x l : Hier.lookup R2 o2 I ieqb x (hmap l) = h (Hier.lookup R1 o1 I ieqb x l).
   Proof. induction l as [|[y s] l IH]; cbn; [symmetry; exact h_o|]. destruct (ieqb x y); [reflexivity|exact IH]. Qed.
 
-  Lemma sum_hom l (f : I -> R1) : Hier.sum R2 o2 add2 I l (fun j => h (f j)) = h (Hier.sum R1 o1 add1 I l f).
-  Proof. induction l as [|a l IH]; cbn; [symmetry; exact h_o|]. rewrite h_add, IH. reflexivity. Qed.
-
-  Lemma sum_ext2 l (f g : I -> R2) : (forall x, f x = g x) -> Hier.sum R2 o2 add2 I l f = Hier.sum R2 o2 add2 I l g.
-  Proof. intros H. induction l as [|a l IH]; cbn; [reflexivity|]. rewrite H, IH. reflexivity. Qed.
+  Lemma sum_hom l (f : I -> R1) (g : I -> R2) : (forall j, g j = h (f j)) ->
+    Hier.sum R2 o2 add2 I l g = h (Hier.sum R1 o1 add1 I l f).
+  Proof. intros E. induction l as [|a l IH]; cbn; [symmetry; exact h_o|]. rewrite h_add, IH, E. reflexivity. Qed.
 
   Lemma forward_hom todo : forall acc,
-    forward R2 o2 add2 mul2 sub2 I ieqb (fun i j => h (B1 i j)) reach (fun i => h (v1 i)) (hmap acc) todo =
+    forward R2 o2 add2 mul2 sub2 I ieqb B2 reach v2 (hmap acc) todo =
     hmap (forward R1 o1 add1 mul1 sub1 I ieqb B1 reach v1 acc todo).
   Proof.
     induction todo as [|i r IH]; intros acc; cbn [forward]; [reflexivity|].
     rewrite <- IH. f_equal. cbn [hmap map fst snd]. f_equal. f_equal. unfold surp1.
-    rewrite h_sub. f_equal. rewrite <- sum_hom. apply sum_ext2. intros j. rewrite h_mul, lookup_hom. reflexivity.
+    rewrite h_sub, h_v. f_equal. apply sum_hom. intros j. rewrite h_mul, h_B, lookup_hom. reflexivity.
   Qed.
 
   (* surpluses of the image data = image of the surpluses *)
   Theorem coef_hom nodes :
-    coef R2 o2 add2 mul2 sub2 I ieqb (fun i j => h (B1 i j)) reach (fun i => h (v1 i)) nodes =
-    hmap (coef R1 o1 add1 mul1 sub1 I ieqb B1 reach v1 nodes).
+    coef R2 o2 add2 mul2 sub2 I ieqb B2 reach v2 nodes = hmap (coef R1 o1 add1 mul1 sub1 I ieqb B1 reach v1 nodes).
   Proof. unfold coef. apply (forward_hom nodes []). Qed.
 
   (* and the same for the value of the interpolant *)
-  Theorem interp_hom nodes (phi : I -> R1) :
-    interp R2 o2 add2 mul2 sub2 I ieqb (fun i j => h (B1 i j)) reach (fun i => h (v1 i)) nodes (fun j => h (phi j)) =
-    h (interp R1 o1 add1 mul1 sub1 I ieqb B1 reach v1 nodes phi).
+  Theorem interp_hom nodes (phi1 : I -> R1) (phi2 : I -> R2) : (forall j, h (phi1 j) = phi2 j) ->
+    interp R2 o2 add2 mul2 sub2 I ieqb B2 reach v2 nodes phi2 = h (interp R1 o1 add1 mul1 sub1 I ieqb B1 reach v1 nodes phi1).
   Proof.
-    unfold interp. cbv zeta. rewrite coef_hom. rewrite <- sum_hom. apply sum_ext2. intros j. rewrite h_mul, lookup_hom. reflexivity.
+    intros Hp. unfold interp. cbv zeta. rewrite coef_hom. apply sum_hom. intros j. rewrite h_mul, Hp, lookup_hom. reflexivity.
   Qed.
 End HierHom.
+
+(* the single-point path: the surplus of a point appended after all others is its value minus the current
+   interpolant over the visited ancestors - exactly one more step of the forward pass *)
+Lemma coef_snoc R rO radd rmul rsub I ieqb B reach v nodes p :
+  coef R rO radd rmul rsub I ieqb B reach v (nodes ++ [p]) =
+  (p, surp1 R rO radd rmul rsub I ieqb B reach v (coef R rO radd rmul rsub I ieqb B reach v nodes) p)
+    :: coef R rO radd rmul rsub I ieqb B reach v nodes.
+Proof.
+  unfold coef. generalize (@nil (I * R)) as acc. induction nodes as [|a l IH]; intros acc; cbn; [reflexivity|]. apply IH.
+Qed.
 
 (* blocks of num_outputs numbers with componentwise operations; the scalar B i j acts on a block as repeat (B i j) *)
 Section Blocks.
@@ -800,15 +810,19 @@ Section Blocks.
   Lemma firstn_map2 (f : R -> R -> R) n : forall a b, firstn n (map2 f a b) = map2 f (firstn n a) (firstn n b).
   Proof. induction n as [|n IH]; intros [|x a] [|y b]; cbn; try reflexivity. rewrite IH. reflexivity. Qed.
 
-  Lemma skipn_map2 (f : R -> R -> R) n : forall a b, length a = length b -> skipn n (map2 f a b) = map2 f (skipn n a) (skipn n b).
+  Lemma map2_nil_r (f : R -> R -> R) a : map2 f a [] = [].
+  Proof. destruct a; reflexivity. Qed.
+
+  Lemma skipn_map2 (f : R -> R -> R) n : forall a b, skipn n (map2 f a b) = map2 f (skipn n a) (skipn n b).
   Proof.
-    induction n as [|n IH]; intros [|x a] [|y b] Hl; cbn in *; try reflexivity; try discriminate.
-    apply IH. lia.
+    induction n as [|n IH]; intros [|x a] [|y b]; cbn; try reflexivity.
+    - rewrite map2_nil_r. reflexivity.
+    - apply IH.
   Qed.
 
-  Lemma restrict_map2 (f : R -> R -> R) b e x y : length x = length y ->
+  Lemma restrict_map2 (f : R -> R -> R) b e x y :
     restrict_block R (map2 f x y) b e = map2 f (restrict_block R x b e) (restrict_block R y b e).
-  Proof. intros Hl. unfold restrict_block. rewrite skipn_map2 by exact Hl. apply firstn_map2. Qed.
+  Proof. unfold restrict_block. rewrite skipn_map2. apply firstn_map2. Qed.
 
   Lemma restrict_repeat (c : R) n b e : (b <= e)%nat -> (e <= n)%nat -> restrict_block R (repeat c n) b e = repeat c (e - b).
   Proof.
@@ -819,4 +833,42 @@ Section Blocks.
     { induction m as [|m IH]; intros [|k] Hk; cbn; try reflexivity; try lia. rewrite IH by lia. reflexivity. }
     rewrite Hs by lia. apply Hf. lia.
   Qed.
+
+  (* c11_restrict_commutes: computing the surpluses of all outputs and cutting every block to the range [b, e) gives the
+     surpluses of the data cut to [b, e) *)
+  Theorem restrict_commutes I ieqb (B : I -> I -> R) reach (v : I -> list R) nodes n b e : (b <= e)%nat -> (e <= n)%nat ->
+    coef (list R) (repeat rO (e - b)) (map2 radd) (map2 rmul) (map2 rsub) I ieqb (fun i j => repeat (B i j) (e - b)) reach
+         (fun i => restrict_block R (v i) b e) nodes =
+    map (fun p => (fst p, restrict_block R (snd p) b e))
+        (coef (list R) (repeat rO n) (map2 radd) (map2 rmul) (map2 rsub) I ieqb (fun i j => repeat (B i j) n) reach v nodes).
+  Proof.
+    intros H1 H2.
+    apply (coef_hom (list R) (list R) (repeat rO n) (map2 radd) (map2 rmul) (map2 rsub) (repeat rO (e - b)) (map2 radd) (map2 rmul) (map2 rsub)
+             (fun x => restrict_block R x b e)).
+    - apply restrict_repeat; assumption.
+    - intros; apply restrict_map2.
+    - intros; apply restrict_map2.
+    - intros; apply restrict_map2.
+    - intros; apply restrict_repeat; assumption.
+    - intros; reflexivity.
+  Qed.
+
+  Theorem restrict_commutes_eval I ieqb (B : I -> I -> R) reach (v : I -> list R) nodes (phi : I -> R) n b e : (b <= e)%nat -> (e <= n)%nat ->
+    interp (list R) (repeat rO (e - b)) (map2 radd) (map2 rmul) (map2 rsub) I ieqb (fun i j => repeat (B i j) (e - b)) reach
+           (fun i => restrict_block R (v i) b e) nodes (fun j => repeat (phi j) (e - b)) =
+    restrict_block R (interp (list R) (repeat rO n) (map2 radd) (map2 rmul) (map2 rsub) I ieqb (fun i j => repeat (B i j) n) reach v nodes
+                             (fun j => repeat (phi j) n)) b e.
+  Proof.
+    intros H1 H2.
+    apply (interp_hom (list R) (list R) (repeat rO n) (map2 radd) (map2 rmul) (map2 rsub) (repeat rO (e - b)) (map2 radd) (map2 rmul) (map2 rsub)
+             (fun x => restrict_block R x b e)).
+    - apply restrict_repeat; assumption.
+    - intros; apply restrict_map2.
+    - intros; apply restrict_map2.
+    - intros; apply restrict_map2.
+    - intros; apply restrict_repeat; assumption.
+    - intros; reflexivity.
+    - intros; apply restrict_repeat; assumption.
+  Qed.
+
 End Blocks.
